@@ -77,3 +77,32 @@ Theorem C03_fail_reports_wrong_payload_digest :
     = Err (KDigest, n_payload_digest) fnd.
 Proof. exact validate_digest_fail_payload. Qed.
 Print Assumptions C03_fail_reports_wrong_payload_digest.
+
+(** the last sentence: with the repair options on under warn, the header values afterwards equal
+    the true length and digests of the block.  [true_digest_text d] is "algorithm:encoding(hash
+    of exactly the bytes d was fed)", in d's algorithm and encoding. *)
+Require Import Gen.FieldTable Model.Validate Proofs.RepairProofs.
+Theorem C03_repaired_text_is_the_digest_of_the_fed_bytes :
+  forall H d, true_digest_text H d = (d_name d ++ [COLON] ++ encode (d_enc d) (H (d_alg d) (d_fed d)))%list.
+Proof. reflexivity. Qed.
+
+Theorem C03_warn_repairs_length_and_block_digest :
+  forall uni_lower H b32_decode b64_decode o rt hs b bd pd cached fnd hs' fnd',
+    o_spec o = Warn -> o_fix_cl o = true -> o_fix_digest o = true ->
+    validate_digest field_table uni_lower H b32_decode b64_decode o rt hs b bd pd cached fnd = Ok hs' fnd' ->
+    (m_has field_table uni_lower n_content_length hs = true ->
+     m_get field_table uni_lower n_content_length hs' = itoa (Z.of_nat (List.length (raw_bytes b)))) /\
+    (disagrees H b32_decode b64_decode bd = true ->
+     m_get field_table uni_lower n_block_digest hs' = true_digest_text H bd).
+Proof. intros. eapply validate_digest_warn_repairs; eassumption. Qed.
+Print Assumptions C03_warn_repairs_length_and_block_digest.
+
+Theorem C03_warn_repairs_payload_digest :
+  forall uni_lower H b32_decode b64_decode o rt hs b bd pd cached fnd hs' fnd' p,
+    o_spec o = Warn -> o_fix_cl o = true -> o_fix_digest o = true ->
+    (rt =? 32)%N = false -> m_has field_table uni_lower n_segment_number hs = false ->
+    payload_obj rt b pd = Some p -> disagrees H b32_decode b64_decode p = true ->
+    validate_digest field_table uni_lower H b32_decode b64_decode o rt hs b bd pd cached fnd = Ok hs' fnd' ->
+    m_get field_table uni_lower n_payload_digest hs' = true_digest_text H p.
+Proof. intros. eapply validate_digest_warn_repairs_payload; eassumption. Qed.
+Print Assumptions C03_warn_repairs_payload_digest.
